@@ -96,7 +96,14 @@ def _values_shard(arg):
                     else:
                         res.maximum(f"abs_err:{nm}", abs(arr[row, j] - ref))
             else:
-                # outside the principal polar range: agreement of the two implementations
+                # outside the principal polar range the definition is the harmonic of the direction
+                # (sin p cos t, sin p sin t, cos p), i.e. the analytic continuation sin^m: the recursion follows it
+                # (compared here; added after seeded change C08-C), the SciPy route is compared with the recursion
+                if _gt(abs(rec[row, j] - ref), tol * (1 + abs(ref))):
+                    par = "odd-m" if m % 2 else "even-m"
+                    res.violation(f"values:recursion:differs-from-definition-outside-principal-range:{par}",
+                                  f"recursion Y(l={l}, m={m}) at azimuth={theta[j]:.6g}, polar={phi[j]:.6g}: {rec[row, j]!r}, "
+                                  f"harmonic of that direction {ref!r}", dict(case, l=l, m=m, point=j))
                 if _gt(abs(rec[row, j] - sci[row, j]), tol * (1 + abs(ref))):
                     if m % 2 and abs(rec[row, j] + sci[row, j]) <= tol * (1 + abs(ref)) and np.sin(phi[j]) < 0:
                         odd_flip += 1
